@@ -83,7 +83,7 @@ var zzC13RegionID = []string{"",
 	"C13-qualified-write",
 }
 
-var zzC13Known = []bool{false, true, true, true, true, true, true, true, true, true, true, true, true, true}
+var zzC13Known = []bool{false, true, true, true, true, true, true, true, true, true, false, true, true, true} // C13-unbound-marker-value fixed (cc03e50)
 
 // ---------------------------------------------------------------------------------------------
 // reference model
